@@ -17,7 +17,7 @@ pub fn run(cfg: &Cfg, rep: &mut Report) {
         let handlers: Vec<Script> = (0..nh)
             .map(|i| {
                 let f = rng.usize(12);
-                Script { id: i as u32, omnivore: true, no_query: f == 0, no_event: f == 1, ..Default::default() }
+                Script { id: i as u32, omnivore: true, no_query: f == 0, no_event: f == 1, meta_hint: if rng.chance(1, 3) { rng.usize(4) as u8 } else { 0 }, ..Default::default() }
             })
             .collect();
         let forms: Vec<(bool, bool)> = handlers.iter().map(|h| (h.no_event, h.no_query)).collect();
@@ -51,6 +51,27 @@ pub fn run(cfg: &Cfg, rep: &mut Report) {
 /// handler of the macro-built tree: records its invocation, reads whatever data there is, answers its number
 pub struct MH<const ID: u32>;
 impl<const ID: u32> scpi::tree::prelude::Command<Dev> for MH<ID> {
+    // the hint macros of the library, spread over the handlers (all of them implement both forms)
+    fn meta(&self) -> scpi::tree::prelude::CommandTypeMeta {
+        struct Q;
+        impl scpi::tree::prelude::Command<Dev> for Q {
+            scpi::cmd_qonly!();
+        }
+        struct N;
+        impl scpi::tree::prelude::Command<Dev> for N {
+            scpi::cmd_nquery!();
+        }
+        struct B;
+        impl scpi::tree::prelude::Command<Dev> for B {
+            scpi::cmd_both!();
+        }
+        match ID % 4 {
+            0 => scpi::tree::prelude::Command::<Dev>::meta(&Q),
+            1 => scpi::tree::prelude::Command::<Dev>::meta(&N),
+            2 => scpi::tree::prelude::Command::<Dev>::meta(&B),
+            _ => scpi::tree::prelude::CommandTypeMeta::Unknown,
+        }
+    }
     fn event(&self, dev: &mut Dev, _c: &mut Context, mut params: scpi::tree::prelude::Parameters) -> scpi::error::Result<()> {
         dev.log.push(Ev::Invoke { h: ID, query: false });
         while params.next_optional_token()?.is_some() {}
